@@ -470,12 +470,21 @@ def c20_replay(run, path):
     return p.returncode
 
 
+def c08(run, tier):
+    for alpha, n in [("core", Q(tier, 3, 4)), ("ops", Q(tier, 3, 4)), ("paths", Q(tier, 3, 4)), ("lex", Q(tier, 3, 4))]:
+        cfg = run.cfg("MC_Grammar.cfg", {"Alphabet": '"%s"' % alpha, "MaxLen": n}, "gen.%s.cfg" % alpha)
+        rep = run.tlc_gen_replay("MC_Grammar", cfg, alpha, timeout=Q(tier, 600, 3600), harness_args=["-workers", "1"])
+        run.absorb(rep, VALUE_ASPECTS | {"accepts-invalid"})
+    for i in range(Q(tier, 1, 4)):
+        run.trace_validate(["-fam", "mixed", "-n", str(Q(tier, 2500, 20000)), "-sub", str(200 + i)], "renderings%d" % i)
+
+
 def adapter_replay(run, path):
     import json, os, subprocess
     rc = json.load(open(path))
     run.build_harness()
     fam = rc.get("fam", "")
-    if fam in ("C16.json", "C09.xml", "C19.unmarshal"):
+    if fam in ("C16.json", "C09.xml", "C19.unmarshal", "C08.tokens"):
         p = subprocess.run([run.harness, "replay-one", path], env=run.env)
         if p.returncode == 1:
             print("VIOLATION property=%s replay=%s" % (run.pid, path))
@@ -595,6 +604,15 @@ PROPS = {
             "four query variants exercise -s and -v bindings, text/comment/PI/attribute results", "exhaustive": {"quick": True, "thorough": True},
             "assumptions": BASE_ASSUME + ["outcomes the specification does not determine (e.g. JSON text forced to be read as XML) are skipped", "values contain no newline characters",
                                           "stand-alone -m serialisation of attribute and namespace nodes is not constrained"]},
+    "C08": {"run": c08, "replay": adapter_replay,
+            "rule": "TLC enumerates EVERY string of at most MaxLen (quick 3, thorough 4) lexemes over four alphabets - core (names a div or child text, number, literal, $v, ( ) [ ] / // | - * = , :: @ . ..), "
+            "ops (all binary operators, operator names, parentheses), paths (names with - . #, node types, axis names as names, QName, p:*, *:a, ( ) / // :: @ * [ ]), lex (_x, '1.', fractions, prefixed variable/function, non-ASCII literal/name) - "
+            "and XGrammar.tla (section 3.7 classification + recursive descent over the EBNF with the documented extensions) decides accept/reject, the AST and its value on a fixed document from two context nodes; "
+            "each string is rendered with single spaces, minimal spaces and random XML white space; BuildExpr must accept exactly the accepted strings, never panic, and the compiled query must evaluate to the AST's value; "
+            "the parser is validated inside TLC by Parse(Unparse(e)) = e on 500+ ASTs and by the precedence/associativity facts of the property (ASSUMEs); those ASTs are also replayed in four renderings "
+            "(minimal / redundant parentheses x abbreviated / not, random white space); recorded random expressions in random renderings are judged by Trace_Xsel; non-trivial = accepted strings",
+            "exhaustive": {"quick": True, "thorough": True},
+            "assumptions": BASE_ASSUME + ["lexemes are rendered by the harness with a NeedsSpace rule so that the text tokenises into the intended lexemes; arbitrary byte strings are C15's business"]},
     "C01": {
         "run": c01,
         "rule": "TLC enumerates every document the Store machine can build within the node bound (all kinds, names a/b x {no namespace,U1}), "
